@@ -245,7 +245,8 @@ def r4(cx):
         bl = b.blocks[blk]
         dl = {}
         for st in bl["s"]:
-            if st[0] == "=" and st[2][0] == "discr" and st[2][1][0] == mode_locals[0]:
+            # (the mode may have travelled into a private helper that was spliced back in: follow plain moves)
+            if st[0] == "=" and st[2][0] == "discr" and (st[2][1][0] == mode_locals[0] or origin_of_operand(b, ["c", [st[2][1][0]]], through_calls=False).from_param(mode_locals[0])):
                 dl[st[1][0]] = True
         t = bl["t"]
         if t[0] == "switch" and t[1][0] in ("c", "m") and t[1][1][0] in dl:
